@@ -370,7 +370,17 @@ fn c03_extra(_spec: &Spec, tier: Tier, seed: u64, known: &Known, report: &mut Re
 // ---------------------------------------------------------------------------------------------------------------------
 // C04
 
-fn c04_judge(case: &Case, _run: &Run, an: &Analysis, stats: &mut Stats) -> CheckResult {
+fn c04_judge(case: &Case, run: &Run, an: &Analysis, stats: &mut Stats) -> CheckResult {
+  // At most once per bottom-up build, straight from the task-side log (independent of how the event stream parses).
+  for (si, sess) in run.sessions.iter().enumerate() {
+    for (bi, b) in sess.builds.iter().enumerate() {
+      if !matches!(b.kind, BuildKind::BottomUp(_)) { continue; }
+      let mut seen: BTreeSet<TaskId> = BTreeSet::new();
+      for l in &run.log[b.log.clone()] {
+        if let crate::interp::L::TEnter(t) = l { if !seen.insert(*t) { return Err(Failure::new(format!("[I1-double-exec] session {} build {} ({:?}): T{} started executing twice in one bottom-up build (task-side log)", si, bi, b.kind, t))); } }
+      }
+    }
+  }
   let mut nontrivial = false;
   for b in &an.builds {
     if matches!(b.kind, BuildKind::BottomUp(_)) && b.facts.max_queue >= 3 && (b.facts.bu_cutoff || b.facts.bu_nested_drain) { nontrivial = true; }
